@@ -150,7 +150,7 @@ func crashChild() {
 		}
 		VFSSetCrash(VFSOpCount()+n, torn)
 	}
-	db, err := prodOpen("sqlite3-sim", path) // as cmd/omniwitness opens --db_file (the shim is this process's default VFS)
+	db, err := prodOpen("sqlite3-sim", path+c06DBSuffixOf(&plan)) // as cmd/omniwitness opens --db_file (the shim is this process's default VFS)
 	if err != nil {
 		fail("open: %v", err)
 	}
@@ -323,6 +323,18 @@ var errPortTrouble = errors.New("could not find a free port for the real binary"
 
 var portCounter atomic.Int64
 
+// c06DBSuffix is appended to the store's path wherever it is used as the VALUE of --db_file (the real binary, the crash
+// children): an operator may run the store in WAL mode by configuring --db_file=<path>?_journal_mode=WAL. Inspection
+// through a fresh connection uses the plain path (SQLite finds the journal mode in the file).
+var c06DBSuffix string
+
+func c06DBSuffixOf(p *Plan) string {
+	if p.Cfg.Extra["wal"] != 0 {
+		return "?_journal_mode=WAL"
+	}
+	return ""
+}
+
 func realRestart(bin, db string, w *World) (map[string][]byte, map[string]int, error) {
 	var lastErr error
 	for attempt := 0; attempt < 12; attempt++ {
@@ -362,7 +374,7 @@ func realRestartOnce(bin, db string, w *World) (map[string][]byte, map[string]in
 	port := 10000 + (int64(os.Getpid())*131+portCounter.Add(1)*7)%22000
 	addr := fmt.Sprintf("127.0.0.1:%d", port)
 	var se lockedBuf
-	cmd := exec.Command(bin, "--listen", addr, "--metrics_listen", "", "--db_file", db, "--private_key", w.WitKeys[0].Key.SignerString(),
+	cmd := exec.Command(bin, "--listen", addr, "--metrics_listen", "", "--db_file", db+c06DBSuffix, "--private_key", w.WitKeys[0].Key.SignerString(),
 		"--poll_interval", "0", "--logtostderr")
 	cmd.Stderr = &se
 	cmd.Env = append(os.Environ(), "VERIF_CHILD=", "VERIF_PROP=")
